@@ -1,7 +1,7 @@
 (* Properties/C10.v — lookups are exact for every id (C10).  Theorems about the two-table arena
    (Model/Onto.v, transcription of src/ontology/termarena.rs) for EVERY insertion sequence and
    EVERY id; MAX_HPO_ID is regenerated from the source on every run. *)
-From HpoV Require Import Gen.Consts Model.Base Model.Onto Model.Script Model.ManyTerms Proofs.C10P Proofs.ManyTermsP Run.C10 Proofs.C10N.
+From HpoV Require Import Gen.Consts Model.Base Model.Onto Model.Script Model.ManyTerms Proofs.C10P Proofs.ManyTermsP Run.C10 Proofs.C10N Model.Group Run.World Proofs.GroupP Proofs.C10S.
 
 Theorem C10_lookup_after_any_insertions : forall ts a id, insert_all ts arena_default = Ok a ->
   ar_get id a = if MAX_HPO_ID <=? id then None else find_by t_id id ts.
@@ -74,6 +74,21 @@ Theorem C10_record_by_id : forall id recs,
   end.
 Proof. exact record_by_id_spec. Qed.
 
+(* SOUNDNESS OF THE EXECUTABLE STATEMENT (term lookups): what an observation accepted by spec_C10 says *)
+Theorem C10_accepted_observation_means : forall w tbl probes queries found iter_ids len qs,
+  spec_C10 ((w, tbl), probes, queries) (Ok (found, iter_ids, len, qs)) = true ->
+  (forall asked got name, In (asked, got, name) found -> got = asked /\ asked < MAX_HPO_ID) /\
+  sorted (map (fun f : N * N * list N => fst (fst f)) found) /\
+  iter_ids = map (fun f : N * N * list N => fst (fst f)) found /\
+  len = Nlen iter_ids /\
+  match w with
+  | WBuilder s =>
+      (forall id, In id iter_ids <-> id < MAX_HPO_ID /\ In id (map fst (script_terms s))) /\
+      (forall asked got name, In (asked, got, name) found -> first_name s asked = Some name)
+  | _ => True
+  end.
+Proof. exact spec_C10_sound. Qed.
+
 Print Assumptions C10_lookup_after_any_insertions.
 Print Assumptions C10_lookup_returns_that_id.
 Print Assumptions C10_lookup_outside_id_space.
@@ -88,3 +103,4 @@ Print Assumptions C10_disease_name_search_exact.
 Print Assumptions C10_first_disease_by_name.
 Print Assumptions C10_gene_by_symbol.
 Print Assumptions C10_record_by_id.
+Print Assumptions C10_accepted_observation_means.
